@@ -8,6 +8,7 @@ use std::sync::Arc;
 use std::time::Duration;
 
 const WATCHDOG: Duration = Duration::from_secs(10);
+static BLOCKED: std::sync::atomic::AtomicBool = std::sync::atomic::AtomicBool::new(false);
 
 /// a ciphertext of the given size encrypting a fixed message (sizes > 2 by repeated multiplication)
 fn ct_of_size(s: &Suite, size: usize, k: u64) -> Ciphertext {
@@ -99,6 +100,15 @@ fn forced(works: &[Work], schedule: &[usize]) -> (Vec<Value>, Vec<Option<Result<
                     break;
                 }
             }
+        }
+        if matches!(&problem, Some(p) if p.contains("blocked")) {
+            // the stuck threads cannot be joined; report and let the caller leave the process
+            BLOCKED.store(true, std::sync::atomic::Ordering::SeqCst);
+            let res = json!({"status": "violation", "kind": "blocked", "detail": problem.clone().unwrap(), "observed": steps});
+            println!("{}", res);
+            use std::io::Write;
+            std::io::stdout().flush().unwrap();
+            std::process::exit(17);
         }
         sched.free_all();
         for (i, h) in handles.into_iter().enumerate() {
@@ -367,6 +377,12 @@ pub fn main(args: &[String]) {
                 println!("{}", json!({"start": i}));
                 let r = if beh["model"].as_str().unwrap() == "keycache" { replay_keycache(&s, &beh) } else { replay_galois(&s, &beh) };
                 println!("{}", r);
+                if BLOCKED.load(std::sync::atomic::Ordering::SeqCst) {
+                    // threads of the blocked schedule are still stuck: leave the process, the driver restarts a worker
+                    use std::io::Write;
+                    std::io::stdout().flush().unwrap();
+                    std::process::exit(17);
+                }
             }
             println!("{}", json!({"done": true}));
         }
